@@ -86,6 +86,12 @@ class C09(ServerPlugin):
             queues.append([(ck, who)] + [(t, who) for t in evs])
             who += 1
         seq = self.merge(rng, queues)
+        burst = []
+        if rng.random() < 0.06:
+            # a burst of 16..24 connects ready in ONE wake-up of the accept loop, mixed kinds
+            pool = [hk or "C1", "C0"] + (["X"] if tr in ("duplex", "dtls") else ["Cr", "Cf"])
+            for i in range(rng.randint(16, 24)):
+                burst.append((rng.choice(pool), f"burst{i}"))
         if tr in ("tcp", "unix"):
             s2 = []
             for t in seq:
@@ -96,6 +102,7 @@ class C09(ServerPlugin):
         else:
             for _ in range(rng.choice([0, 1, 2])):
                 seq.insert(rng.randrange(len(seq) + 1), ("S", None))
+        seq = burst + seq
         seq.append(("S", None))
         # the probe: a fresh well-behaved client must be served
         pk = hk or rng.choice(["C1", "C2"] if proto == "auto" else ["C1"])
@@ -141,6 +148,22 @@ class C09(ServerPlugin):
                             cases.append({"mode": mode, "proto": proto, "tr": tr, "evs": ["X", "X", pk, "X", "S"] + [f"{t}0" for t in FULL] + ["S"]})
                             continue
                         e = [ck, "S"] + [f"{t}0" for t in evs] + [pk, "S"] + [f"{t}1" for t in FULL] + ["S"]
+                        cases.append({"mode": mode, "proto": proto, "tr": tr, "evs": e})
+        # bursts: 16..24 connects are ready in one wake-up of the accept loop (queued before the server runs /
+        # waiting in the listen backlog), mixed kinds; all must be accepted, the last good one and a probe served
+        for mode, tr in (("p", "duplex"), ("g", "duplex"), ("p", "dtls"), ("p", "unix"), ("g", "unix"), ("p", "tcp")):
+            for proto, pk in (("h1", "C1"), ("h2", "C2"), ("auto", "C1")):
+                if tr == "tcp" and proto != "h1":
+                    continue
+                for n in ((16, 17, 20, 24) if tr == "duplex" else (16, 21)):
+                    for mix in (0, 1):
+                        odd = ["C0", "X"] if tr in ("duplex", "dtls") else ["C0", "Cr", "Cf"]
+                        toks = [pk if (mix == 0 or i % 3 == 0) else odd[i % len(odd)] for i in range(n)]
+                        toks[-1] = pk
+                        ids = sum(1 for t in toks if t != "X")
+                        last, probe = ids - 1, ids
+                        pre = ["S"] if mix else []
+                        e = pre + toks + ["S"] + [f"{t}{last}" for t in FULL] + [pk, "S"] + [f"{t}{probe}" for t in FULL] + ["S"]
                         cases.append({"mode": mode, "proto": proto, "tr": tr, "evs": e})
         # tcp / unix: clients that are gone (reset / closed) before the server accepts them: alone, in a burst,
         # while an exchange is in flight, mixed with good clients waiting in the same backlog
